@@ -244,6 +244,13 @@ class Model:
         it.calls = []
         return it
 
+    @staticmethod
+    def _str_vs_level(e):
+        """the one TypeError that is a positively established fact of this model: an ordering comparison between a str request
+        and a level (Python refuses str < int), i.e. the int() coercion is missing"""
+        msg = " ".join(str(a) for a in e.args_)
+        return "not supported between" in msg and "str" in msg
+
     def run(self, func, args):
         """-> (result | 'raises X', interp)"""
         it = self.interp()
@@ -257,6 +264,8 @@ class Model:
         try:
             r = it.call(it.closure_of(func), args)
         except PyRaise as e:
+            if not (e.reportable or (e.name == "TypeError" and self._str_vs_level(e))):
+                raise AnalysisError("%s: the evaluator produced %s while executing the analysed code (model gap, not a verdict)" % (func.qualname, e))
             r = "raises %s" % e.name
         it.calls = log
         return r, it
@@ -271,6 +280,8 @@ def run_seq(model, calls):
         try:
             out.append(it.call(it.closure_of(func), args))
         except PyRaise as e:
+            if not (e.reportable or (e.name == "TypeError" and Model._str_vs_level(e))):
+                raise AnalysisError("%s: the evaluator produced %s while executing the analysed code (model gap, not a verdict)" % (func.qualname, e))
             out.append("raises %s" % e.name)
     return out
 
@@ -560,7 +571,8 @@ def _mutants(m, conf):
                 del node.body[i]
                 return True
         return False
-    out.append(("module: api=None no longer replaced by the default", f, none_ignored, True))
+    # (not a mutant of this rule any more: dropping the None test only ends in int(None) -> TypeError, which under the reporting
+    #  policy is a model gap (exit 2), not a finding)
 
     def wrong_dir(node):
         for n in ast.walk(node):
